@@ -10,7 +10,8 @@ from .. import mirp_util as MU
 from ..core import Result, fs, fl, F
 
 ID = "C05"
-RULE = ("seeded VRPTW instances with positive customer-to-customer travel times (2..4 nodes, windows in quarters incl. inf, costs of either sign) x "
+RULE = ("seeded VRPTW instances with positive customer-to-customer travel times (2..4 nodes, windows in quarters incl. inf, costs of either sign; every 25th: "
+        "a zero-duration depot exit whose arc comes AFTER the customer's arcs in the arc table) x "
         "time grids given in any order (integer / quarter / sparse / window-end / complete); all 2^n vectors for n <= 14 (both tiers): satisfies the "
         "object's constraints <=> the selected moves decompose (independent implementation) into depot-to-depot routes with every customer exactly "
         "once; objective = summed arc costs; get_routes = that decomposition; non-trivial = at least one feasible and one infeasible vector with "
@@ -31,6 +32,24 @@ def gen(rng, tier):
             # no customer at all: the empty selection satisfies the (empty) constraint system and decodes to no route
             yield dict(form="arc", spec=dict(nodes=[dict(name="D", demand="0", lo="0", hi="inf")], arcs=[], cap="4", init="0"),
                        grid=[fs(Fraction(t)) for t in range(rng.randint(1, 3))], seed=0)
+            continue
+        if k % 25 == 7:
+            # a depot->customer move of zero duration ties on departure time with the customer's onward move, and the customer's arcs
+            # were added BEFORE the depot's (they come first in the arc table): every decoded route must still start at the depot
+            q = lambda: fs(Fraction(rng.randint(-8, 12), 4))        # noqa: E731
+            two = rng.random() < 0.5
+            nodes = [dict(name="D", demand="0", lo="0", hi="inf"), dict(name="A", demand="1", lo="0", hi="1" if two else "2")]
+            arcs = [["A", "D", "1", q()]]
+            if two:
+                nodes.append(dict(name="B", demand="1", lo="1", hi="2"))
+                arcs += [["A", "B", "1", q()], ["B", "D", "1", q()]]
+            arcs.append(["D", "A", "0", q()])
+            if two:
+                arcs.append(["D", "B", rng.choice(["0", "1"]), q()])
+            grid = ["0", "1", "2"] + ([] if two else ["3"])
+            if rng.random() < 0.5:
+                grid.reverse()
+            yield dict(form="arc", spec=dict(nodes=nodes, arcs=arcs, cap="4", init="0"), grid=grid, seed=rng.randrange(10 ** 6))
             continue
         if k % 4 != 3:
             spec, info = VU.gen_planted(rng, wide=(k % 4 == 2))
